@@ -4,6 +4,7 @@ import QipVerif.Lemmas.SchedSafe
 import QipVerif.Lemmas.SchedFixed
 import QipVerif.Lemmas.SchedOracle
 import QipVerif.Lemmas.SchedTree
+import QipVerif.Lemmas.SchedCons
 import Mathlib.Algebra.Group.Opposite
 import Mathlib.Algebra.BigOperators.Group.List.Lemmas
 import Mathlib.Algebra.FreeMonoid.Basic
@@ -485,5 +486,105 @@ example (ρ : ℕ → ℝ) (U V : Matrix (St 1) (St 1) ℂ) : (∀ a ∈ fullWit
   · exact Or.inr (Or.inl ⟨0, 1, by decide, 1 / 3, by decide, rfl, rfl, rfl⟩)
   · exact Or.inl ⟨⟨.CNOT, [1], [0], {}⟩, by decide, by decide, hB, rfl, rfl, Or.inr (by decide)⟩
   · exact Or.inr (Or.inr (hop V))
+
+/-! ## (h) the constructor arguments of `Scheduler`
+
+**`method`.**  `Scheduler.schedule` looks at `self.method` at three places (reversal of the dependency graph, reversal of
+the returned cycles list, reversal of the graph before the start times are read); the three string literals are
+regenerated from the source (`Gen.SchedRule.methodTests`, the translator refuses any other use of `self.method`).
+The model has one flag (`Cfg.alap`, computed by the driver as `alapOf m`). -/
+
+/-- the three tests are the same test -/
+theorem method_tests_uniform : Gen.SchedRule.methodTests = ["ALAP", "ALAP", "ALAP"] := by decide
+
+/-- **method_contract.**  At each of the three places the ALAP branch is taken iff the constructor argument is the string
+`"ALAP"`; every other argument (`"alap"`, `"Alap"`, `""`, any other string, `None` or a non-string: `none`) takes the
+ASAP branch **at all three places** — in particular never at some places only. -/
+theorem method_contract (m : Option String) (k : Nat) (hk : k < 3) :
+    Gen.SchedRule.alapAt k m = true ↔ m = some "ALAP" := by
+  unfold Gen.SchedRule.alapAt
+  rw [method_tests_uniform]
+  have : (["ALAP", "ALAP", "ALAP"] : List String).getD k "" = "ALAP" := by
+    interval_cases k <;> rfl
+  rw [this]
+  simp
+
+theorem method_not_alap_is_asap (m : Option String) (h : m ≠ some "ALAP") :
+    alapOf m = false ∧ ∀ k, k < 3 → Gen.SchedRule.alapAt k m = false := by
+  have key : ∀ k, k < 3 → Gen.SchedRule.alapAt k m = false := by
+    intro k hk
+    cases hb : Gen.SchedRule.alapAt k m with
+    | false => rfl
+    | true => exact absurd ((method_contract m k hk).mp hb) h
+  exact ⟨key 0 (by omega), key⟩
+
+example : alapOf (some "alap") = false ∧ alapOf (some "Alap") = false ∧ alapOf none = false ∧ alapOf (some "") = false ∧
+    alapOf (some "ALAP") = true := by decide
+
+/-! **`constraint_functions`.**  `shOf fs ns i2 i1` is `not apply_constraint(i2, i1, nodes)` for the list `fs` of
+constraint functions (`CFun`: the library's `qubit_constraint`, allow everything, forbid one ordered pair of indices,
+forbid equal names), with `apply_constraint` regenerated from the source. -/
+
+/-- **apply_constraint_is_conjunction.**  The regenerated `apply_constraint` answers `True` iff every constraint function
+does (for the empty list: always). -/
+theorem apply_constraint_is_conjunction (fs : List CFun) (i j : Nat) :
+    shOf fs ns i j = false ↔ ∀ f ∈ fs, f.eval ns i j = true :=
+  shOf_false_iff fs ns i j
+
+/-- the default list `[qubit_constraint]` is the relation all theorems above are about -/
+theorem default_constraints : shOf [.qubit] ns = shareIdx ns ∧
+    cyclesGenW (shOf [.qubit] ns) alap allowPerm ns O2 = cyclesGen alap allowPerm ns O2 :=
+  ⟨shOf_default ns, cyclesGenW_default alap allowPerm ns O2⟩
+
+/-- **cycles_partition_cons** — for every constraint list. -/
+theorem cycles_partition_cons (fs : List CFun) (hO : ∀ r l, (O2 r l).Perm l) :
+    (cyclesGenW (shOf fs ns) alap allowPerm ns O2).flatten.Perm (List.range ns.length) :=
+  cyclesGenW_perm (shOf fs ns) alap allowPerm ns O2 hO
+
+/-- **cycle_respects_constraints** — for every constraint list: inside a returned cycle (listed in the order in which
+its members were approved) every later member `b` was approved against every earlier member `a` by **every**
+constraint function, asked as the code asks (`f(b, a, nodes)`). -/
+theorem cycle_respects_constraints (fs : List CFun) (c : List Nat)
+    (hc : c ∈ cyclesGenW (shOf fs ns) alap allowPerm ns O2) :
+    c.Pairwise (fun a b => ∀ f ∈ fs, f.eval ns b a = true) :=
+  (cyclesGenW_respects (shOf fs ns) alap allowPerm ns O2 c hc).imp
+    (fun {a b} h => (shOf_false_iff fs ns b a).mp h)
+
+/-- **cycle_disjoint_cons** — whenever `qubit_constraint` is among the constraint functions (first, last, anywhere),
+two distinct gates of one cycle share no qubit. -/
+theorem cycle_disjoint_cons (fs : List CFun) (hq : CFun.qubit ∈ fs) (c : List Nat)
+    (hc : c ∈ cyclesGenW (shOf fs ns) alap allowPerm ns O2) (i j : Nat) (hi : i ∈ c) (hj : j ∈ c) (hij : i ≠ j) :
+    shareIdx ns i j = false :=
+  cyclesGenW_disjoint (shOf fs ns) alap allowPerm ns O2 (fun a b h => shOf_of_qubit hq ns a b h) c hc i hi j hj hij
+
+/-- **order_respected_cons** — for every constraint list. -/
+theorem order_respected_cons (fs : List CFun) (hO : ∀ r l, (O2 r l).Perm l) (i j : Nat) (hij : i < j) (hj : j < ns.length)
+    (hs : shareIdx ns i j = true) (hc : commIdx allowPerm ns j i = false) :
+    posOf (cyclesGenW (shOf fs ns) alap allowPerm ns O2) i < posOf (cyclesGenW (shOf fs ns) alap allowPerm ns O2) j :=
+  cyclesGenW_order (shOf fs ns) alap allowPerm ns O2 hO hij hj hs hc
+
+/-- **schedule_den_C_full_cons** — the same-unitary clause for every constraint list (hypotheses as in
+`schedule_den_C_full`). -/
+theorem schedule_den_C_full_cons (fs : List CFun) (N : ℕ) (ρ : ℕ → ℝ) (g : Nat → Matrix (St N) (St N) ℂ)
+    (hO : ∀ r l, (O2 r l).Perm l) (hF : ∀ a ∈ ns, a.name = "FREDKIN" → a.sc = false)
+    (hok : ∀ i, i < ns.length → GateOK N ρ (getIns ns i) (g i)) :
+    ((cyclesGenW (shOf fs ns) alap allowPerm ns O2).flatten.map g).reverse.prod =
+      ((List.range ns.length).map g).reverse.prod :=
+  schedule_den_full_W ρ (shOf fs ns) alap allowPerm ns g O2 hO hF hok
+
+/-- two CNOT gates with one control -/
+def consWitness : List Ins := [treeIns "CNOT" [1] [0] 1, treeIns "CNOT" [2] [0] 1]
+
+/-- **without `qubit_constraint` exclusivity is not provided**: with the empty list (or any list of functions that allow
+the pair) the two commuting gates sharing qubit 0 are put into one cycle; with `qubit_constraint` first, last or alone
+they are not; `forbid 1 0` (candidate 1 against member 0, the order of the call) separates them, `forbid 0 1` does not. -/
+theorem C05_constraints_absent :
+    gateCyclesW (shOf [] consWitness) ⟨false, true, [], false⟩ consWitness = [[0, 1]] ∧
+    gateCyclesW (shOf [.allowAll, .forbid 0 1] consWitness) ⟨false, true, [], false⟩ consWitness = [[0, 1]] ∧
+    gateCyclesW (shOf [.allowAll, .forbid 1 0] consWitness) ⟨false, true, [], false⟩ consWitness = [[0], [1]] ∧
+    gateCyclesW (shOf [.sameName] consWitness) ⟨false, true, [], false⟩ consWitness = [[0], [1]] ∧
+    gateCyclesW (shOf [.qubit, .allowAll] consWitness) ⟨false, true, [], false⟩ consWitness = [[0], [1]] ∧
+    gateCyclesW (shOf [.allowAll, .qubit] consWitness) ⟨false, true, [], false⟩ consWitness = [[0], [1]] := by
+  decide +kernel
 
 end QipVerif.C05
